@@ -339,7 +339,12 @@ impl Instr {
             Instr::Parent { ded, fields } => match (ded, fields) {
                 (None, None) => None,
                 (Some(d), None) => Some(d.clone()),
-                (d, Some(f)) => Some(format!("{}{}", ded_prefix(d), f.iter().map(|x| x.render()).collect::<Vec<_>>().join(", "))),
+                (d, Some(f)) => {
+                    // DSL lexical rule: `parent(x)` with a lone path means "dedicated to type x"; a single plain
+                    // child field is therefore written with a trailing comma when no dedication prefix is present.
+                    let lone = d.is_none() && f.len() == 1 && f[0].attrs.is_empty() && f[0].nested.is_none() && f[0].ty.is_none();
+                    Some(format!("{}{}{}", ded_prefix(d), f.iter().map(|x| x.render()).collect::<Vec<_>>().join(", "), if lone { "," } else { "" }))
+                }
             },
             Instr::AsType { ded, member, ty } => Some(match member {
                 Some(m) => format!("{}{}, {}", ded_prefix(ded), m, ty),
